@@ -181,6 +181,8 @@ def drives(quick):
         dict(name="2term_smoothed_same_triangles", dev="bar", dev_kw=dict(smooth=40), cur={"source": 4.0, "drain": -4.0}, A=0.3, opts=dict(dt_init=1e-2, adaptive=False)),
         dict(name="3term_other_xi", dev="bar3", dev_kw=dict(xi=0.4, max_edge_length=1.25), cur={"source": 3.0, "drain": -1.0, "top": -2.0}, A=0.2, opts=dict(dt_init=1e-2, adaptive=False)),
     ]
+    # contact pads overlapping the film (interior edges inside the terminal polygons)
+    d += [dict(name="2term_thick_pads", dev="bar_thick", dev_kw=dict(max_edge_length=0.6), cur={"source": 3.0, "drain": -3.0}, A=0.2, opts=dict(dt_init=1e-2, adaptive=False))]
     d += [dict(name="3term_same_solver_solved_twice", dev="bar3", twice=True, cur={"source": 3.0, "drain": -1.0, "top": -2.0}, A=0.2, opts=dict(dt_init=1e-2, adaptive=False))]
     # "converted from the user's units": prefixes of the current unit and of the device's length unit that do not cancel
     d += [
@@ -277,6 +279,67 @@ def run_level(ctx, stop_first=False):
     return first
 
 
+def cancelled_level(ctx, stop_first=False):
+    """"at every recorded step" includes the last frame of a run the user cancels: Ctrl-C arrives in the middle of an
+    update (just after the new supercurrent has been evaluated, before the Poisson solve), the run writes its final
+    frame and returns -- that frame, like every other, must hold a balanced pair (J_s, J_n)"""
+    from tdgl.finite_volume.operators import MeshOperators, build_divergence
+    from tdgl.solver.solver import TDGLSolver
+
+    first = None
+    for kind, cur, A, o in (("bar", {"source": 3.0, "drain": -3.0}, 0.4, dict()), ("bar_hole", {"source": 2.0, "drain": -2.0}, 0.5, dict(include_screening=True, screening_tolerance=1e-3))):
+        dev = zoo.make_device(kind, ctx.rng, max_edge_length=1.0, lam=(0.5 if o else 2.0))
+        D = build_divergence(dev.mesh)
+        for at_step in (5, 6):
+            o_upd, o_js = TDGLSolver.update, MeshOperators.get_supercurrent
+            st = dict(step=-1, fired=False)
+
+            def upd(self, state, *a, **kw):
+                st["step"] = int(state["step"])
+                return o_upd(self, state, *a, **kw)
+
+            def js(self, psi):
+                r = o_js(self, psi)
+                if st["step"] == at_step and not st["fired"]:
+                    st["fired"] = True
+                    raise KeyboardInterrupt()
+                return r
+
+            out = os.path.join(str(ctx.work), f"cancel_{kind}_{at_step}.h5")
+            if os.path.exists(out):
+                os.remove(out)
+            TDGLSolver.update, MeshOperators.get_supercurrent = upd, js
+            try:
+                sol = tdgl.solve(dev, runs.options(solve_time=0.2, dt_init=1e-2, adaptive=False, save_every=4, output_file=out, progress_interval=10**9, pause_on_interrupt=False, **o),
+                                 applied_vector_potential=A, terminal_currents=cur)
+            except KeyboardInterrupt:
+                sol = None
+            finally:
+                TDGLSolver.update, MeshOperators.get_supercurrent = o_upd, o_js
+            ctx.case(("cancelled", kind, at_step), nontrivial=st["fired"])
+            ctx.count("cancelled_runs" if st["fired"] else "cancel_injection_not_reached")
+            if not os.path.exists(out):
+                continue
+
+            def fail(key, what, **extra):
+                nonlocal first
+                rp = dict(drive=f"cancelled:{kind}", cancelled_in_step=at_step, **extra)
+                ctx.fail(key + ":cancelled-run", what, rp)
+                if first is None:
+                    first = dict(key=key + ":cancelled-run", what=what, **rp)
+
+            for fr in runs.parse_h5(out)[0]:
+                if fr["step"] == 0:
+                    continue
+                check_frame(ctx, dev, D, fr["data"]["supercurrent"], fr["data"]["normal_current"], cur, "uA", dict(step=fr["step"]), fail)
+                ctx.count("frames_checked_in_cancelled_runs")
+            if sol is not None and int(sol.tdgl_data.state["step"]) > 0:
+                check_frame(ctx, dev, D, np.asarray(sol.tdgl_data.supercurrent), np.asarray(sol.tdgl_data.normal_current), cur, "uA", dict(step="returned"), fail)
+            if first and stop_first:
+                return first
+    return first
+
+
 def acceptance(ctx):
     """every balanced assignment is accepted by the real validator (through the real constructor)"""
     from tdgl.solver.solver import TDGLSolver
@@ -329,12 +392,13 @@ def acceptance(ctx):
 def run(ctx):
     operator_level(ctx)
     run_level(ctx)
+    cancelled_level(ctx)
     acceptance(ctx)
 
 
 def search(ctx):
     ctx.rng = np.random.default_rng(ctx.seed + 2718)
-    return operator_level(ctx, with_model=False) or run_level(ctx, stop_first=True) or acceptance(ctx)
+    return operator_level(ctx, with_model=False) or run_level(ctx, stop_first=True) or cancelled_level(ctx, stop_first=True) or acceptance(ctx)
 
 
 def replay(payload):
